@@ -107,7 +107,7 @@ class WfqPart:
     kinds = ["wfq", "vc", "wfq2", "vc2", "heap", "txfloat"]
     serves = ["C14", "C12", "C08"]
     coq_imports = ["From ONL Require Import Base.Cmp Elem.Packet Elem.StoreQ Elem.HeapList Elem.HeapRun Elem.WFQServer Elem.WFQ Elem.VC."]
-    props_files = {"C14": ["Props/C14.v", "Props/C14_Bridge.v", "Props/C14_BridgeVC.v", "Props/C14_BridgeRun.v"], "C12": ["Props/C12_WFQ.v"], "C08": ["Props/C08_WFQ.v"]}
+    props_files = {"C14": ["Props/C14.v", "Props/C14_Bridge.v", "Props/C14_BridgeVC.v", "Props/C14_BridgeRun.v", "Props/C14_BridgeRunWFQ.v"], "C12": ["Props/C12_WFQ.v"], "C08": ["Props/C08_WFQ.v"]}
     weight = 2
     nontrivial_rule = {
         p: ("kinds wfq / vc (84%): one WFQ (60%) or VirtualClock (40%) with 1-4 classes, weights from {1,2,3,4} / dyadic vticks, rates 2^8..2^12, identity "
@@ -140,7 +140,10 @@ class WfqPart:
             "(C14) vlib/translate_gen.py (generator bodies cut at their yields; tables props/sched_tie.py) regenerates "
             "coq/Gen/Extracted_vc_run.v from VC.run before every build; the C14_gen_vc_run_* theorems (Props/C14_BridgeRun.v, proofs "
             "Elem/VCRunBridge.v) prove FInit / FGetDone / FChildEnd of the VirtualClock automaton equal to the generated functions; "
-            "WFQ.run (same loop plus the virtual-time bookkeeping after a transmission) is tied through its leaf methods only",
+            "likewise coq/Gen/Extracted_wfq_run.v from WFQ.run (update_vtime / reset_vtime in place) and the C14_gen_wfq_run_* theorems "
+            "(Props/C14_BridgeRunWFQ.v, proofs Elem/WFQRunBridge.v): FInit / FGetDone / FChildEnd and the bookkeeping after a transmission "
+            "= wfq_done, up to == on virtual times; len(self.active_set) at run()'s test is an observation the bridge instantiates "
+            "with the length of the model's set after the removal",
             "two-instance cases: run()/send_packet generator objects are renamed (runA, send_packetA, ...) from outside so that the "
             "harness can attribute kernel steps; the model has no state shared between instances by construction (each instance is "
             "its own srv record), which is what the independence monitor checks of the code"]
@@ -166,6 +169,7 @@ class WfqPart:
         tr.write_if_changed(os.path.join(fw.COQ, "Gen", "Extracted_vc.v"), extracted_vc(fw.REPO))
         from props import sched_tie
         sched_tie.write_if_changed(fw.COQ, "Extracted_vc_run.v", sched_tie.extracted_vc_run(fw.REPO))
+        sched_tie.write_if_changed(fw.COQ, "Extracted_wfq_run.v", sched_tie.extracted_wfq_run(fw.REPO))
 
     # ---- generation ---------------------------------------------------------------------------------
     def gen_case(self, rng, tier, prop_id):
